@@ -34,15 +34,18 @@ Fixpoint esc_conts (inner : list (option label)) (s : stmt) : list (option label
   | _ => []
   end.
 
+(* a statement emitted in direct form: no receive inside, calls only to direct-form functions *)
+Definition direct_okb (p : fprog) (s : stmt) : bool := calls_in (is_directb p) s && negb (has_yield s).
+
 Definition post_okb (p : fprog) (ctx : list flow) (l : option label) : bool :=
   match find_flow l ctx with
-  | Some fl => calls_in (is_directb p) (fl_post fl)
+  | Some fl => direct_okb p (fl_post fl)
   | None => true
   end.
 
 Definition instr_okb (p : fprog) (i : instr) : bool :=
   match i with
-  | IStruct ctx s => calls_in (is_directb p) s && forallb (post_okb p ctx) (esc_conts [] s)
+  | IStruct ctx s => direct_okb p s && forallb (post_okb p ctx) (esc_conts [] s)
   | _ => true
   end.
 
@@ -62,7 +65,7 @@ Fixpoint nodupb (l : list nat) : bool :=
 
 Definition fn_okb (p : fprog) (f : ffn) : bool :=
   match f with
-  | FDirect _ s => calls_in (is_directb p) s
+  | FDirect _ s => direct_okb p s
   | FFlat _ code => forallb (instr_okb p) code && nodupb (labels code)
   end.
 
